@@ -65,9 +65,10 @@ CHECKS.update({
         text=('BasicZoneProcessor::calcStartDayOfMonth on the real IR with year (1873..2126), weekday and day-of-month '
               'symbolic, month x expression kind a driver case split, compared by SMT with the table-driven calendar '
               'specification; the admitted day ranges are obtained by running the current transformer filter code; '
-              'admitted tuples are shown never to resolve into another year. The Python twin calc_day_of_month is '
-              'compared with the same specification by checks/c18 (Python part) when pysym is available.'),
-        technique='symbolic execution of clang LLVM IR (llsym) + SMT against a calendar specification',
+              'admitted tuples are shown never to resolve into another year. The Python twin calc_day_of_month and the '
+              'admission filter of _create_rules_with_on_day_expansion are executed by pysym (symbolic year/weekday/day, '
+              'datetime.date replaced by a calendar-spec stand-in) and compared with the same specification over integers.'),
+        technique='symbolic execution of clang LLVM IR (llsym) and of the Python functions (pysym) + SMT against one calendar specification',
     ),
 })
 
